@@ -365,6 +365,20 @@ func c09h3Run(t *testing.T, s *verifh.Session, ops, pred []string) ([]string, bo
 			}
 			time.Sleep(100 * time.Microsecond)
 		}
+		// Quiescence (harness determinism, found under heavy machine load): a dial whose context
+		// is done WILL fail, but its goroutine may not have noticed yet although the request
+		// that gave up has already returned; the model treats "the dialling request gives up"
+		// and "its dial fails" as one step, so wait for the dial goroutine before the next op
+		// (otherwise a following request can still join the dying dial — the schedule the
+		// model's `retryDial` covers from a different starting state).
+		for _, k := range known {
+			if k.dialCtx != nil && k.dialCtx.Err() != nil {
+				select {
+				case <-k.dialing:
+				case <-time.After(3 * time.Second):
+				}
+			}
+		}
 		impl = append(impl, got)
 		if strings.Contains(got, ":2:") {
 			shared = true
